@@ -36,6 +36,8 @@ CHECKS = {
          "The specification's SMF builds Accepts (optional IE subsets in table order, QoS rule lengths 0..4000) inside protected DL NAS TRANSPORT and PER-encodes setup request transfers; the real extractors must return exactly the address/TEID/UPF the generator put in. Termination: the walk is transcribed as a TLA+ state machine and model-checked for termination over all octet-class strings up to length 4; every class string up to length 3|4 and random inputs up to 4 KiB are run through the real functions under a 2 s watchdog."),
  "C14": ("fault enumeration generated by a TLA+ fault model (PerFault.tla: truncate / flip-bit / set-octet / max-count / insert / delete actions over valid encodings), replayed into the real decoder under a watchdog, outcomes judged by TLC (Totality.tla)",
          "TLC derives the faulty inputs from valid encodings of every message type with the actions of PerFault.tla; the real ngap.Decoder runs each under a 3 s watchdog with wall time and allocation measured; Totality.tla demands outcome in {value, error} within 200 ms and 64 MiB. Seeded random strings, multi-byte corruptions and splices are added on the Go side."),
+ "C18": ("TLA+ trace validation with TLC (TraceConfig.tla: 24-key identity, Cli!Mode) plus TLC-as-AMF online runs for the on-the-wire part",
+         "Generated assignments of the 24 documented keys go through the real YAML loader and are compared key by key in TLC; argument vectors of length 0..3 are run against the real binary and judged by Cli!Mode (banner, usage, N2 traffic); complete runs with random configurations are judged on the wire by the specification's AMF (every configured value that reaches the N2 interface, and the ConnectToAmf arguments via hook H1)."),
 }
 NA = {}
 def main():
